@@ -94,6 +94,9 @@ type Interp struct {
 	// constant bounds); an undecided branch makes the run imprecise.
 	UnrollLoops bool
 	MaxPathSteps int
+	// TraceDyn records loads and stores through non-constant indices as events
+	// (and accepts such stores without modelling their effect).
+	TraceDyn bool
 	// TraceArith records possibly lossy narrowing conversions and possibly
 	// overflowing multiplications/additions as events.
 	TraceArith bool
